@@ -170,6 +170,7 @@ func (h *HookSource) SubscriptionOnStart(hc resolve.StartupHookContext, input []
 	}
 	r.hooksInFlight.Add(1)
 	defer r.hooksInFlight.Add(-1)
+	r.hookBegun.Add(1)
 	if st := r.startupOfCurrentGoroutine(); st != nil {
 		st.Creator.Store(sub)
 	}
